@@ -125,9 +125,35 @@ struct H {
   static void moduli() {
     const auto cs = ctors();
     const auto P = Unit::Pressure::Pascal;
+    const Mat* previous = nullptr;
     for (const Mat& mt : materials()) {
       const M ref(ShearModulus<T>(mt.mu, P), LameFirstModulus<T>(mt.la, P));
       const f128 mu = mt.mu, la = mt.la;
+      // --- what an accessor reported stays what it was when the same accessor is asked of ANOTHER solid afterwards (results
+      // bound by reference, as a caller may: `const auto& e = steel.YoungModulus();`)
+      if (previous) {
+        const M other(ShearModulus<T>(previous->mu, P), LameFirstModulus<T>(previous->la, P));
+        bool ok = true;
+        auto held = [&](auto get) {
+          const auto& first = get(other);
+          const T before = first.Value();
+          const auto& second = get(ref);
+          (void)second;
+          ok = ok && vf::same_bits(first.Value(), before);
+        };
+        held([](const M& m) -> decltype(auto) { return m.ShearModulus(); });
+        held([](const M& m) -> decltype(auto) { return m.LameFirstModulus(); });
+        held([](const M& m) -> decltype(auto) { return m.YoungModulus(); });
+        held([](const M& m) -> decltype(auto) { return m.IsentropicBulkModulus(); });
+        held([](const M& m) -> decltype(auto) { return m.IsothermalBulkModulus(); });
+        held([](const M& m) -> decltype(auto) { return m.PWaveModulus(); });
+        held([](const M& m) -> decltype(auto) { return m.PoissonRatio(); });
+        vf::stat("accessor_results_held_across_solids", 7);
+        if (!ok)
+          vf::viol(std::string("accessor-result-changes-with-a-later-call|") + vf::TName<T>::value,
+                   std::string("{\"first_solid_mu\":") + vf::jstr(vf::hex(previous->mu)) + ",\"second_solid_mu\":" + vf::jstr(vf::hex(mt.mu)) + "}");
+      }
+      previous = &mt;
       // --- accessors vs the identities of isotropic elasticity, evaluated exactly on the stored (mu, lambda)
       struct Acc {
         const char* name;
@@ -300,6 +326,20 @@ struct H {
       for (const auto& e : ts) {
         const PhQ::Strain<TA> eps(SymmetricDyad<TA>(e[0], e[1], e[2], e[3], e[4], e[5]));
         const PhQ::Stress<TA> sig = model.Stress(eps);
+        {
+          // the value category of the argument does not matter: a temporary strain / stress gives what the named object gives
+          TA n1[6], t1[6], n2[6], t2[6];
+          vf::comps(sig, n1);
+          vf::comps(model.Stress(PhQ::Strain<TA>(eps)), t1);
+          vf::comps(model.Strain(sig), n2);
+          vf::comps(model.Strain(PhQ::Stress<TA>(sig)), t2);
+          for (int i = 0; i < 6; i++)
+            if (!vf::same_bits(n1[i], t1[i]) || !vf::same_bits(n2[i], t2[i])) {
+              vf::viol(std::string("temporary-argument-differs-from-named|") + vf::TName<T>::value + "|" + vf::TName<TA>::value, "{\"strain\":" + vf::comps_hex(eps) + ",\"stress_of_named\":" + vf::comps_hex(sig) +
+                                                                                                                           ",\"stress_of_temporary\":" + vf::comps_hex(model.Stress(PhQ::Strain<TA>(eps))) + "}");
+              break;
+            }
+        }
         TA got[6];
         vf::comps(sig, got);
         const f128 tr = (f128)e[0] + (f128)e[3] + (f128)e[5];
